@@ -12,6 +12,8 @@
  * No oracle in here beyond equality with what the specification said.
  */
 #include <stdio.h>
+#include <signal.h>
+#include <unistd.h>
 #include <stdlib.h>
 #include <string.h>
 #include <stdint.h>
@@ -339,6 +341,7 @@ static int do_edges(char const *in, char const *prefix, int nb)
     while (fgets(line, sizeof(line), fi))
     {
         if (!strstr(line, "7777777")) { continue; }
+        alarm(60); /* watchdog: one transition (real calls, walks, projection) never takes that long */
         int n = parse_ints(line, v, 8192);
         if (v[0] != 7777777 || (n - 26) % 8) { fprintf(stderr, "bad edge line (%d ints)\n", n); return 3; }
         N = (n - 26) / 8;
@@ -602,6 +605,7 @@ static int do_iter(char const *in, char const *prefix, int nb, int maxnodes)
     while (fgets(line, sizeof(line), fi))
     {
         if (!strstr(line, "7777777")) { continue; }
+        alarm(60); /* watchdog: one transition (real calls, walks, projection) never takes that long */
         int n = parse_ints(line, v, 8192);
         if (v[0] != 7777777 || (n - 26) % 8) { fprintf(stderr, "bad edge line (%d ints)\n", n); return 3; }
         int fullN = (n - 26) / 8;
@@ -677,6 +681,7 @@ static int do_random(unsigned seed, int nhist, int nkeys, int nops, char const *
     if (N > MAXN) { return 3; }
     for (int h = 0; h < nhist; ++h)
     {
+        alarm(120);
         snprintf(name, sizeof(name), "%s-%04d.ndjson", prefix, h % nb);
         FILE *fo = fopen(name, "a");
         if (!fo) { perror(name); return 3; }
@@ -721,8 +726,16 @@ static int do_random(unsigned seed, int nhist, int nkeys, int nops, char const *
     return 0;
 }
 
+static void on_alarm(int sig)
+{
+    (void)sig;
+    static char const msg[] = "TIMEOUT: a library call or a walk of the tree it left did not finish within 60 s\n";
+    if (write(2, msg, sizeof(msg) - 1)) {}
+    _exit(95);
+}
 int main(int argc, char **argv)
 {
+    signal(SIGALRM, on_alarm);
     summary = stdout;
     int rc = 2;
     if (argc >= 5 && !strcmp(argv[1], "edges")) { rc = do_edges(argv[2], argv[3], atoi(argv[4])); }
